@@ -1,1 +1,1282 @@
-fn main(){println!("{}", serde_json::json!({"a":1}));}
+//! seqdrv: interprets JSON "programs" against the real single-threaded
+//! part of stakker (queues, timers, actors, Ret/Fwd, slab, logger) and
+//! emits an ndjson event trace for validation against the TLA+ specs.
+//!
+//! usage: seqdrv <cases.ndjson> [--from N]   (trace on stdout)
+//!
+//! One case per input line: {"case":"name","ops":[...]}.  A panic inside
+//! the code under test is data: it is logged as a `panic` event and the
+//! process exits with status 3 after flushing, so that the caller can
+//! restart from the following case (`--from`).
+
+use serde_json::Value;
+use stakker::*;
+use std::cell::{Cell, RefCell};
+use std::collections::HashMap;
+use std::io::Write;
+use std::panic::{catch_unwind, AssertUnwindSafe};
+use std::rc::Rc;
+use std::time::{Duration, Instant};
+
+// ---------------------------------------------------------------- world
+
+enum TKey {
+    Fixed(FixedTimerKey),
+    Max(MaxTimerKey),
+    Min(MinTimerKey),
+}
+
+#[derive(Default)]
+struct World {
+    out: Vec<String>,
+    base: Option<Instant>,
+    timers: HashMap<i64, TKey>,
+    owns: HashMap<i64, OwnH>,
+    refs: HashMap<i64, Actor<Node>>,
+    rets: HashMap<i64, RetH>,
+    fwds: HashMap<i64, Fwd<i64>>,
+    deferrer: Option<Deferrer>,
+    panic_msg: Option<String>,
+    during: String,
+}
+
+thread_local! {
+    static W: RefCell<World> = RefCell::new(World::default());
+}
+
+fn w<T>(f: impl FnOnce(&mut World) -> T) -> T {
+    W.with(|w| f(&mut w.borrow_mut()))
+}
+
+fn ev(s: String) {
+    w(|w| w.out.push(s));
+}
+
+fn base() -> Instant {
+    w(|w| w.base.unwrap())
+}
+
+// [s, ns] relative to base; s may be negative (instant before base)
+fn inst(v: &Value) -> Instant {
+    let s = v[0].as_i64().unwrap();
+    let ns = v[1].as_u64().unwrap() as u32;
+    let b = base();
+    if s >= 0 {
+        b + Duration::new(s as u64, ns)
+    } else {
+        b - Duration::new((-s) as u64, 0) + Duration::new(0, ns)
+    }
+}
+
+fn dur(v: &Value) -> Duration {
+    Duration::new(v[0].as_u64().unwrap(), v[1].as_u64().unwrap() as u32)
+}
+
+fn tj(i: Instant) -> String {
+    let b = base();
+    if i >= b {
+        let d = i - b;
+        format!("[{},{}]", d.as_secs(), d.subsec_nanos())
+    } else {
+        let d = b - i;
+        if d.subsec_nanos() == 0 {
+            format!("[-{},0]", d.as_secs())
+        } else {
+            format!("[-{},{}]", d.as_secs() + 1, 1_000_000_000 - d.subsec_nanos())
+        }
+    }
+}
+
+fn dj(d: Duration) -> String {
+    format!("[{},{}]", d.as_secs(), d.subsec_nanos())
+}
+
+// ---------------------------------------------------------------- handles
+
+// Owner handle wrapper: logs before the real ActorOwn is dropped
+struct OwnH {
+    oid: i64,
+    aid: i64,
+    own: Option<ActorOwn<Node>>,
+}
+impl Drop for OwnH {
+    fn drop(&mut self) {
+        ev(format!(r#"{{"e":"owndrop","oid":{},"aid":{}}}"#, self.oid, self.aid));
+        drop(self.own.take());
+    }
+}
+
+// Ret handle wrapper: logs before the real Ret is dropped un-used
+struct RetH {
+    rid: i64,
+    ret: Option<Ret<i64>>,
+}
+impl Drop for RetH {
+    fn drop(&mut self) {
+        if let Some(r) = self.ret.take() {
+            ev(format!(r#"{{"e":"retdrop","rid":{}}}"#, self.rid));
+            drop(r);
+        }
+    }
+}
+
+#[derive(Default)]
+struct Holds {
+    owns: Vec<OwnH>,
+    rets: Vec<RetH>,
+}
+
+// Token captured by every closure / message handed to the runtime
+struct Tok {
+    def: Rc<Value>,
+    ran: Cell<bool>,
+    holds: RefCell<Holds>,
+}
+
+impl Tok {
+    fn new(def: &Value) -> Tok {
+        // Move the handles listed in "holds" out of the top-level
+        // registry into this token
+        let mut holds = Holds::default();
+        if let Some(h) = def.get("holds") {
+            if let Some(a) = h.get("owns").and_then(|v| v.as_array()) {
+                for o in a {
+                    if let Some(x) = w(|w| w.owns.remove(&o.as_i64().unwrap())) {
+                        holds.owns.push(x);
+                    }
+                }
+            }
+            if let Some(a) = h.get("rets").and_then(|v| v.as_array()) {
+                for o in a {
+                    if let Some(x) = w(|w| w.rets.remove(&o.as_i64().unwrap())) {
+                        holds.rets.push(x);
+                    }
+                }
+            }
+        }
+        Tok {
+            def: Rc::new(def.clone()),
+            ran: Cell::new(false),
+            holds: RefCell::new(holds),
+        }
+    }
+    fn id(&self) -> i64 {
+        self.def["id"].as_i64().unwrap()
+    }
+    // Make held handles available to the ops of the running item;
+    // returns the ids so that leftovers can be dropped at the end
+    fn unpack(&self) -> (Vec<i64>, Vec<i64>) {
+        let h = std::mem::take(&mut *self.holds.borrow_mut());
+        let mut oi = vec![];
+        let mut ri = vec![];
+        for o in h.owns {
+            oi.push(o.oid);
+            w(|w| w.owns.insert(o.oid, o));
+        }
+        for r in h.rets {
+            ri.push(r.rid);
+            w(|w| w.rets.insert(r.rid, r));
+        }
+        (oi, ri)
+    }
+}
+
+fn drop_leftovers(ids: (Vec<i64>, Vec<i64>)) {
+    // Closure captures are dropped when the closure finishes
+    for r in ids.1 {
+        let x = w(|w| w.rets.remove(&r));
+        drop(x);
+    }
+    for o in ids.0 {
+        let x = w(|w| w.owns.remove(&o));
+        drop(x);
+    }
+}
+
+impl Drop for Tok {
+    fn drop(&mut self) {
+        ev(format!(
+            r#"{{"e":"drop","item":{},"ran":{}}}"#,
+            self.id(),
+            self.ran.get()
+        ));
+        if let Some(ops) = self.def.get("ondrop").and_then(|v| v.as_array()) {
+            if !ops.is_empty() {
+                ev(format!(r#"{{"e":"dh","item":{}}}"#, self.id()));
+                exec_ops(ops, &mut Ctx::D);
+                ev(format!(r#"{{"e":"dhe","item":{}}}"#, self.id()));
+            }
+        }
+    }
+}
+
+// ---------------------------------------------------------------- shapes
+
+#[derive(Copy, Clone)]
+struct A1;
+#[derive(Copy, Clone)]
+#[repr(align(8))]
+struct A8;
+#[derive(Copy, Clone)]
+#[repr(align(16))]
+struct A16;
+#[derive(Copy, Clone)]
+#[repr(align(64))]
+struct A64;
+#[derive(Copy, Clone)]
+#[repr(align(128))]
+struct A128;
+
+struct Pad<A: Copy, const N: usize> {
+    _a: [A; 0],
+    seed: u8,
+    d: [u8; N],
+}
+impl<A: Copy, const N: usize> Pad<A, N> {
+    #[inline(never)]
+    fn new(seed: u8) -> Self {
+        let mut d = [0u8; N];
+        for (i, b) in d.iter_mut().enumerate() {
+            *b = seed.wrapping_add((i as u8).wrapping_mul(31));
+        }
+        Pad { _a: [], seed, d }
+    }
+    #[inline(never)]
+    fn check(&self, id: i64) {
+        let addr = self as *const Self as usize;
+        let mut ok = addr % std::mem::align_of::<A>() == 0;
+        for (i, b) in self.d.iter().enumerate() {
+            if *b != self.seed.wrapping_add((i as u8).wrapping_mul(31)) {
+                ok = false;
+            }
+        }
+        if !ok {
+            ev(format!(r#"{{"e":"corrupt","item":{}}}"#, id));
+        }
+    }
+}
+
+const NSHAPES: i64 = 35;
+
+macro_rules! shaped {
+    ($shape:expr, $seed:expr, |$pad:ident| $body:expr) => {{
+        macro_rules! arm { ($a:ty, $n:expr) => {{ let $pad = Pad::<$a, $n>::new($seed); $body }}; }
+        match ($shape).rem_euclid(NSHAPES) {
+            0 => arm!(A1, 0), 1 => arm!(A1, 1), 2 => arm!(A1, 8), 3 => arm!(A1, 24),
+            4 => arm!(A1, 100), 5 => arm!(A1, 1000), 6 => arm!(A1, 4096),
+            7 => arm!(A8, 0), 8 => arm!(A8, 1), 9 => arm!(A8, 8), 10 => arm!(A8, 24),
+            11 => arm!(A8, 100), 12 => arm!(A8, 1000), 13 => arm!(A8, 4096),
+            14 => arm!(A16, 0), 15 => arm!(A16, 1), 16 => arm!(A16, 8), 17 => arm!(A16, 24),
+            18 => arm!(A16, 100), 19 => arm!(A16, 1000), 20 => arm!(A16, 4096),
+            21 => arm!(A64, 0), 22 => arm!(A64, 1), 23 => arm!(A64, 8), 24 => arm!(A64, 24),
+            25 => arm!(A64, 100), 26 => arm!(A64, 1000), 27 => arm!(A64, 4096),
+            28 => arm!(A128, 0), 29 => arm!(A128, 1), 30 => arm!(A128, 8), 31 => arm!(A128, 24),
+            32 => arm!(A128, 100), 33 => arm!(A128, 1000), _ => arm!(A128, 4096),
+        }
+    }};
+}
+
+// ---------------------------------------------------------------- items
+
+fn run_item(s: &mut Stakker, tok: Tok) {
+    let id = tok.id();
+    ev(format!(r#"{{"e":"x","item":{},"now":{}}}"#, id, tj(s.now())));
+    tok.ran.set(true);
+    let left = tok.unpack();
+    let def = tok.def.clone();
+    if let Some(ops) = def.get("ops").and_then(|v| v.as_array()) {
+        exec_ops(ops, &mut Ctx::S(s));
+    }
+    drop_leftovers(left);
+    ev(format!(r#"{{"e":"xe","item":{}}}"#, id));
+    drop(tok);
+}
+
+// ---------------------------------------------------------------- actor
+
+struct VTok {
+    aid: i64,
+}
+impl Drop for VTok {
+    fn drop(&mut self) {
+        ev(format!(r#"{{"e":"vdrop","aid":{}}}"#, self.aid));
+    }
+}
+
+struct Node {
+    // Field order matters: kept handles are dropped after `vtok`
+    vtok: VTok,
+    aid: i64,
+    running: bool,
+    kept_owns: Vec<OwnH>,
+    kept_rets: Vec<RetH>,
+    slab: ActorOwnSlab<Node>,
+}
+
+impl Node {
+    fn new(aid: i64) -> Self {
+        Node {
+            vtok: VTok { aid },
+            aid,
+            running: false,
+            kept_owns: Vec::new(),
+            kept_rets: Vec::new(),
+            slab: ActorOwnSlab::new(),
+        }
+    }
+
+    // Prep-style method: every step of initialisation
+    fn init(cx: CX![], aid: i64, tok: Tok) -> Option<Self> {
+        let id = tok.id();
+        ev(format!(
+            r#"{{"e":"x","item":{},"now":{},"aid":{},"prep":true}}"#,
+            id,
+            tj(cx.now()),
+            aid
+        ));
+        tok.ran.set(true);
+        let left = tok.unpack();
+        let def = tok.def.clone();
+        if let Some(ops) = def.get("ops").and_then(|v| v.as_array()) {
+            exec_ops(ops, &mut Ctx::P(aid, cx));
+        }
+        drop_leftovers(left);
+        let some = def.get("ret").and_then(|v| v.as_str()) == Some("some");
+        ev(format!(r#"{{"e":"xe","item":{},"some":{}}}"#, id, some));
+        drop(tok);
+        if some {
+            Some(Node::new(aid))
+        } else {
+            None
+        }
+    }
+
+    // Ready-style method
+    fn meth(&mut self, cx: CX![], tok: Tok) {
+        let id = tok.id();
+        if self.running {
+            ev(format!(r#"{{"e":"reenter","aid":{}}}"#, self.aid));
+        }
+        self.running = true;
+        ev(format!(
+            r#"{{"e":"x","item":{},"now":{},"aid":{},"prep":false}}"#,
+            id,
+            tj(cx.now()),
+            self.aid
+        ));
+        tok.ran.set(true);
+        let left = tok.unpack();
+        let def = tok.def.clone();
+        if let Some(ops) = def.get("ops").and_then(|v| v.as_array()) {
+            exec_ops(ops, &mut Ctx::M(self, cx));
+        }
+        drop_leftovers(left);
+        ev(format!(r#"{{"e":"xe","item":{}}}"#, id));
+        self.running = false;
+        drop(tok);
+    }
+
+    // Target of ret_to!
+    fn retm(&mut self, cx: CX![], rid: i64, v: Option<i64>) {
+        ev(format!(
+            r#"{{"e":"rcall","rid":{},"aid":{},"has":{},"val":{},"now":{}}}"#,
+            rid,
+            self.aid,
+            v.is_some(),
+            v.unwrap_or(0),
+            tj(cx.now())
+        ));
+    }
+
+    // Target of ret_some_to!
+    fn retsome(&mut self, cx: CX![], rid: i64, v: i64) {
+        ev(format!(
+            r#"{{"e":"rcall","rid":{},"aid":{},"has":true,"val":{},"now":{}}}"#,
+            rid,
+            self.aid,
+            v,
+            tj(cx.now())
+        ));
+    }
+
+    // Target of fwd_to!
+    fn fwdm(&mut self, cx: CX![], fid: i64, v: i64) {
+        ev(format!(
+            r#"{{"e":"fcall","fid":{},"aid":{},"val":{},"now":{}}}"#,
+            fid,
+            self.aid,
+            v,
+            tj(cx.now())
+        ));
+    }
+}
+
+fn cause_str(c: &Option<StopCause>) -> String {
+    match c {
+        None => "none".into(),
+        Some(StopCause::Stopped) => "stopped".into(),
+        Some(StopCause::Failed(e)) => format!("failed:{}", e),
+        Some(StopCause::Killed(e)) => format!("killed:{}", e),
+        Some(StopCause::Dropped) => "dropped".into(),
+        Some(StopCause::Lost) => "lost".into(),
+    }
+}
+
+fn mk_notify(aid: i64) -> Ret<StopCause> {
+    Ret::new(move |c: Option<StopCause>| {
+        let z = w(|w| w.refs.get(&aid).map(|a| a.is_zombie()));
+        ev(format!(
+            r#"{{"e":"notify","aid":{},"cause":"{}","zombie":{}}}"#,
+            aid,
+            cause_str(&c),
+            z.unwrap_or(true)
+        ));
+    })
+}
+
+// ---------------------------------------------------------------- ctx
+
+enum Ctx<'a, 'b> {
+    S(&'a mut Stakker),
+    M(&'a mut Node, &'a mut Cx<'b, Node>),
+    P(i64, &'a mut Cx<'b, Node>),
+    D,
+}
+
+impl Ctx<'_, '_> {
+    fn core(&mut self) -> Option<&mut Core> {
+        match self {
+            Ctx::S(s) => Some(&mut **s),
+            Ctx::M(_, cx) => Some(&mut ***cx),
+            Ctx::P(_, cx) => Some(&mut ***cx),
+            Ctx::D => None,
+        }
+    }
+    fn name(&self) -> &'static str {
+        match self {
+            Ctx::S(_) => "s",
+            Ctx::M(..) => "m",
+            Ctx::P(..) => "p",
+            Ctx::D => "d",
+        }
+    }
+}
+
+fn get_i(op: &Value, k: &str) -> i64 {
+    op[k].as_i64().unwrap_or_else(|| panic!("harness: missing int field {} in {}", k, op))
+}
+
+fn get_actor(aid: i64) -> Option<Actor<Node>> {
+    w(|w| w.refs.get(&aid).cloned())
+}
+
+fn submit_ev(q: &str, item: &Value, extra: String) {
+    ev(format!(
+        r#"{{"e":"sub","q":"{}","item":{}{}}}"#,
+        q,
+        item["id"].as_i64().unwrap(),
+        extra
+    ));
+}
+
+fn exec_ops(ops: &[Value], ctx: &mut Ctx) {
+    for op in ops {
+        exec_op(op, ctx);
+    }
+}
+
+fn exec_op(op: &Value, ctx: &mut Ctx) {
+    let name = op["op"].as_str().unwrap();
+    w(|w| w.during = name.to_string());
+    match name {
+        // ------------------------------------------------ queues
+        "defer" => {
+            let item = &op["item"];
+            let shape = item.get("shape").and_then(|v| v.as_i64()).unwrap_or(9);
+            let id = get_i(item, "id");
+            let seed = (id as u8).wrapping_mul(7);
+            let via = op.get("via").and_then(|v| v.as_str()).unwrap_or("core");
+            let tok = Tok::new(item);
+            submit_ev("main", item, format!(r#","via":"{}""#, via));
+            let deferrer = match (via, ctx.core()) {
+                ("core", Some(_)) => None,
+                _ => Some(w(|w| w.deferrer.clone().expect("no deferrer"))),
+            };
+            if let Some(d) = deferrer {
+                shaped!(shape, seed, |pad| d.defer(move |s| {
+                    pad.check(id);
+                    run_item(s, tok)
+                }));
+            } else {
+                let core = ctx.core().unwrap();
+                shaped!(shape, seed, |pad| core.defer(move |s| {
+                    pad.check(id);
+                    run_item(s, tok)
+                }));
+            }
+        }
+        "lazy" => {
+            let item = &op["item"];
+            let shape = item.get("shape").and_then(|v| v.as_i64()).unwrap_or(9);
+            let id = get_i(item, "id");
+            let seed = (id as u8).wrapping_mul(7);
+            let tok = Tok::new(item);
+            submit_ev("lazy", item, String::new());
+            let core = ctx.core().expect("lazy needs core");
+            shaped!(shape, seed, |pad| core.lazy(move |s| {
+                pad.check(id);
+                run_item(s, tok)
+            }));
+        }
+        "idle" => {
+            let item = &op["item"];
+            let tok = Tok::new(item);
+            submit_ev("idle", item, String::new());
+            let core = ctx.core().expect("idle needs core");
+            core.idle(move |s| run_item(s, tok));
+        }
+        // ------------------------------------------------ timers
+        "tadd" | "after" | "tmac" => {
+            let item = &op["item"];
+            let tid = get_i(op, "tid");
+            let kind = op["kind"].as_str().unwrap_or("fixed");
+            let core = ctx.core().expect("timer op needs core");
+            let now = core.now();
+            let at = if name == "after" { now + dur(&op["d"]) } else { inst(&op["t"]) };
+            let tok = Tok::new(item);
+            let iid = get_i(item, "id");
+            if name == "tmac" {
+                // timer_max! / timer_min! semantics: update, else add
+                let existing = w(|w| match w.timers.get(&tid) {
+                    Some(TKey::Max(k)) => Some(TKey::Max(*k)),
+                    Some(TKey::Min(k)) => Some(TKey::Min(*k)),
+                    _ => None,
+                });
+                let (updated, key) = match (kind, existing) {
+                    ("max", k) => {
+                        let mut key = if let Some(TKey::Max(k)) = k { k } else { MaxTimerKey::default() };
+                        let before = key;
+                        timer_max!(&mut key, at, [core], |s| run_item(s, tok));
+                        (before == key, TKey::Max(key))
+                    }
+                    (_, k) => {
+                        let mut key = if let Some(TKey::Min(k)) = k { k } else { MinTimerKey::default() };
+                        let before = key;
+                        timer_min!(&mut key, at, [core], |s| run_item(s, tok));
+                        (before == key, TKey::Min(key))
+                    }
+                };
+                w(|w| w.timers.insert(tid, key));
+                ev(format!(
+                    r#"{{"e":"tmac","tid":{},"kind":"{}","t":{},"item":{},"upd":{}}}"#,
+                    tid, kind, tj(at), iid, updated
+                ));
+            } else {
+                let key = match kind {
+                    "max" => TKey::Max(core.timer_max_add(at, move |s| run_item(s, tok))),
+                    "min" => TKey::Min(core.timer_min_add(at, move |s| run_item(s, tok))),
+                    _ => {
+                        if name == "after" {
+                            TKey::Fixed(core.after(dur(&op["d"]), move |s| run_item(s, tok)))
+                        } else {
+                            TKey::Fixed(core.timer_add(at, move |s| run_item(s, tok)))
+                        }
+                    }
+                };
+                w(|w| w.timers.insert(tid, key));
+                ev(format!(
+                    r#"{{"e":"tadd","tid":{},"kind":"{}","t":{},"item":{}}}"#,
+                    tid, kind, tj(at), iid
+                ));
+            }
+        }
+        "tupd" | "tdel" | "tact" => {
+            let tid = get_i(op, "tid");
+            let core = ctx.core().expect("timer op needs core");
+            // Negative tid: the Default key of the given kind
+            let key = if tid < 0 {
+                match op["kind"].as_str().unwrap() {
+                    "max" => TKey::Max(MaxTimerKey::default()),
+                    "min" => TKey::Min(MinTimerKey::default()),
+                    _ => TKey::Fixed(FixedTimerKey::default()),
+                }
+            } else {
+                w(|w| match w.timers.get(&tid).expect("unknown tid") {
+                    TKey::Fixed(k) => TKey::Fixed(*k),
+                    TKey::Max(k) => TKey::Max(*k),
+                    TKey::Min(k) => TKey::Min(*k),
+                })
+            };
+            let kind = match key {
+                TKey::Fixed(_) => "fixed",
+                TKey::Max(_) => "max",
+                TKey::Min(_) => "min",
+            };
+            match name {
+                "tupd" => {
+                    let at = inst(&op["t"]);
+                    let res = match key {
+                        TKey::Max(k) => core.timer_max_upd(k, at),
+                        TKey::Min(k) => core.timer_min_upd(k, at),
+                        TKey::Fixed(_) => panic!("harness: tupd on fixed timer"),
+                    };
+                    ev(format!(
+                        r#"{{"e":"tupd","tid":{},"kind":"{}","t":{},"res":{}}}"#,
+                        tid, kind, tj(at), res
+                    ));
+                }
+                "tdel" => {
+                    ev(format!(r#"{{"e":"tdelb","tid":{}}}"#, tid));
+                    let res = match key {
+                        TKey::Max(k) => core.timer_max_del(k),
+                        TKey::Min(k) => core.timer_min_del(k),
+                        TKey::Fixed(k) => core.timer_del(k),
+                    };
+                    ev(format!(r#"{{"e":"tdel","tid":{},"kind":"{}","res":{}}}"#, tid, kind, res));
+                }
+                _ => {
+                    let res = match key {
+                        TKey::Max(k) => core.timer_max_active(k),
+                        TKey::Min(k) => core.timer_min_active(k),
+                        TKey::Fixed(_) => panic!("harness: tact on fixed timer"),
+                    };
+                    ev(format!(r#"{{"e":"tact","tid":{},"kind":"{}","res":{}}}"#, tid, kind, res));
+                }
+            }
+        }
+        "nexp" => {
+            if let Ctx::S(s) = ctx {
+                let x = s.next_expiry();
+                ev(format!(
+                    r#"{{"e":"nexp","has":{},"x":{}}}"#,
+                    x.is_some(),
+                    x.map(tj).unwrap_or("[0,0]".into())
+                ));
+            } else {
+                panic!("harness: nexp needs stakker");
+            }
+        }
+        "nwait" => {
+            if let Ctx::S(s) = ctx {
+                let now = inst(&op["now"]);
+                let x = s.next_expiry();
+                let r = s.next_wait(now);
+                ev(format!(
+                    r#"{{"e":"nwait","now":{},"has":{},"x":{},"rhas":{},"res":{}}}"#,
+                    tj(now),
+                    x.is_some(),
+                    x.map(tj).unwrap_or("[0,0]".into()),
+                    r.is_some(),
+                    r.map(dj).unwrap_or("[0,0]".into())
+                ));
+            } else {
+                panic!("harness: nwait needs stakker");
+            }
+        }
+        "nwaitmax" => {
+            if let Ctx::S(s) = ctx {
+                let now = inst(&op["now"]);
+                let maxd = dur(&op["max"]);
+                let pending = op["pending"].as_bool().unwrap();
+                let x = s.next_expiry();
+                let r = s.next_wait_max(now, maxd, pending);
+                ev(format!(
+                    r#"{{"e":"nwaitmax","now":{},"max":{},"pending":{},"has":{},"x":{},"res":{}}}"#,
+                    tj(now),
+                    dj(maxd),
+                    pending,
+                    x.is_some(),
+                    x.map(tj).unwrap_or("[0,0]".into()),
+                    dj(r)
+                ));
+            } else {
+                panic!("harness: nwaitmax needs stakker");
+            }
+        }
+        "startinst" => {
+            let core = ctx.core().expect("needs core");
+            ev(format!(r#"{{"e":"startinst","t":{}}}"#, tj(core.start_instant())));
+        }
+        // ------------------------------------------------ actors
+        "acreate" => {
+            // {"op":"acreate","aid":A,"oid":O,"slab":bool,"init":{item..., "ret":"some"|"none"}}
+            let aid = get_i(op, "aid");
+            let oid = get_i(op, "oid");
+            let in_slab = op.get("slab").and_then(|v| v.as_bool()).unwrap_or(false);
+            let parent_aid = match ctx {
+                Ctx::M(n, _) => n.aid,
+                Ctx::P(a, _) => *a,
+                _ => 0,
+            };
+            let notify = mk_notify(aid);
+            let actor: Actor<Node>;
+            if in_slab {
+                if let Ctx::M(node, cx) = ctx {
+                    let parent = cx.this().clone();
+                    actor = node.slab.add(cx, parent, |this| &mut this.slab, notify);
+                    w(|w| w.refs.insert(aid, actor.clone()));
+                    ev(format!(
+                        r#"{{"e":"acreate","aid":{},"oid":0,"parent":{},"slab":true,"logid":{}}}"#,
+                        aid, parent_aid, actor.id()
+                    ));
+                } else {
+                    panic!("harness: slab create outside method");
+                }
+            } else {
+                let own = match ctx {
+                    Ctx::S(s) => actor_new!(s, Node, notify),
+                    Ctx::M(_, cx) => actor_new!(cx, Node, notify),
+                    Ctx::P(_, cx) => actor_new!(cx, Node, notify),
+                    Ctx::D => panic!("harness: acreate in drop handler"),
+                };
+                actor = own.clone();
+                w(|w| w.refs.insert(aid, actor.clone()));
+                ev(format!(
+                    r#"{{"e":"acreate","aid":{},"oid":{},"parent":{},"slab":false,"logid":{}}}"#,
+                    aid, oid, parent_aid, actor.id()
+                ));
+                let h = OwnH { oid, aid, own: Some(own) };
+                w(|w| w.owns.insert(oid, h));
+            }
+            if let Some(init) = op.get("init") {
+                let tok = Tok::new(init);
+                submit_ev("main", init, format!(r#","aid":{},"prep":true"#, aid));
+                let core = ctx.core().unwrap();
+                call!([actor, core], Node::init(aid, tok));
+            }
+        }
+        "call" => {
+            // {"op":"call","aid":A,"prep":bool,"q":"main|lazy|idle","item":{...}}
+            let aid = get_i(op, "aid");
+            let prep = op.get("prep").and_then(|v| v.as_bool()).unwrap_or(false);
+            let q = op.get("q").and_then(|v| v.as_str()).unwrap_or("main");
+            let item = &op["item"];
+            let actor = get_actor(aid).expect("unknown actor");
+            let tok = Tok::new(item);
+            submit_ev(q, item, format!(r#","aid":{},"prep":{}"#, aid, prep));
+            match (ctx.core(), q, prep) {
+                (None, _, false) => {
+                    // From a drop handler: no core
+                    call!([actor], meth(tok));
+                }
+                (None, _, true) => {
+                    call!([actor], Node::init(aid, tok));
+                }
+                (Some(core), "lazy", false) => lazy!([actor, core], meth(tok)),
+                (Some(core), "idle", false) => idle!([actor, core], meth(tok)),
+                (Some(core), "lazy", true) => lazy!([actor, core], Node::init(aid, tok)),
+                (Some(core), "idle", true) => idle!([actor, core], Node::init(aid, tok)),
+                (Some(core), _, false) => call!([actor, core], meth(tok)),
+                (Some(core), _, true) => call!([actor, core], Node::init(aid, tok)),
+            }
+        }
+        "tcall" => {
+            // Actor call from a fixed timer: {"op":"tcall","tid":T,"t":[..],"aid":A,"item":{..}}
+            let aid = get_i(op, "aid");
+            let tid = get_i(op, "tid");
+            let item = &op["item"];
+            let actor = get_actor(aid).expect("unknown actor");
+            let tok = Tok::new(item);
+            let at = inst(&op["t"]);
+            let core = ctx.core().expect("tcall needs core");
+            let key = core.timer_add(at, move |s| actor.apply(s, move |n, cx| n.meth(cx, tok)));
+            w(|w| w.timers.insert(tid, TKey::Fixed(key)));
+            ev(format!(
+                r#"{{"e":"tadd","tid":{},"kind":"fixed","t":{},"item":{},"aid":{}}}"#,
+                tid, tj(at), get_i(item, "id"), aid
+            ));
+        }
+        "stop" => match ctx {
+            Ctx::M(n, cx) => {
+                ev(format!(r#"{{"e":"stop","aid":{}}}"#, n.aid));
+                stop!(cx);
+            }
+            Ctx::P(a, cx) => {
+                ev(format!(r#"{{"e":"stop","aid":{}}}"#, a));
+                stop!(cx);
+            }
+            _ => panic!("harness: stop outside actor"),
+        },
+        "fail" => {
+            let code = op["code"].as_str().unwrap().to_string();
+            match ctx {
+                Ctx::M(n, cx) => {
+                    ev(format!(r#"{{"e":"fail","aid":{},"code":"{}"}}"#, n.aid, code));
+                    cx.fail_string(code);
+                }
+                Ctx::P(a, cx) => {
+                    ev(format!(r#"{{"e":"fail","aid":{},"code":"{}"}}"#, a, code));
+                    cx.fail_string(code);
+                }
+                _ => panic!("harness: fail outside actor"),
+            }
+        }
+        "kill" => {
+            // Synchronous kill through an owner held in the registry
+            let oid = get_i(op, "oid");
+            let code = op["code"].as_str().unwrap().to_string();
+            if let Ctx::S(s) = ctx {
+                let own = w(|w| w.owns.remove(&oid));
+                if let Some(h) = own {
+                    ev(format!(r#"{{"e":"kill","aid":{},"code":"{}"}}"#, h.aid, code));
+                    h.own.as_ref().unwrap().kill_string(s, code);
+                    ev(format!(r#"{{"e":"kille","aid":{}}}"#, h.aid));
+                    w(|w| w.owns.insert(oid, h));
+                } else {
+                    ev(format!(r#"{{"e":"nop","why":"no owner {}"}}"#, oid));
+                }
+            } else {
+                panic!("harness: kill needs stakker");
+            }
+        }
+        "owndrop" => {
+            let oid = get_i(op, "oid");
+            let h = w(|w| w.owns.remove(&oid));
+            if h.is_none() {
+                ev(format!(r#"{{"e":"nop","why":"no owner {}"}}"#, oid));
+            }
+            drop(h);
+        }
+        "ownclone" => {
+            // owned(): another owning reference
+            let oid = get_i(op, "oid");
+            let oid2 = get_i(op, "oid2");
+            let h2 = w(|w| {
+                w.owns.get(&oid).map(|h| OwnH {
+                    oid: oid2,
+                    aid: h.aid,
+                    own: Some(h.own.as_ref().unwrap().owned()),
+                })
+            });
+            if let Some(h2) = h2 {
+                ev(format!(r#"{{"e":"ownclone","oid":{},"oid2":{},"aid":{}}}"#, oid, oid2, h2.aid));
+                w(|w| w.owns.insert(oid2, h2));
+            } else {
+                ev(format!(r#"{{"e":"nop","why":"no owner {}"}}"#, oid));
+            }
+        }
+        "ownanon" => {
+            // Convert to ActorOwnAnon and drop that
+            let oid = get_i(op, "oid");
+            let h = w(|w| w.owns.remove(&oid));
+            if let Some(mut h) = h {
+                let anon = h.own.take().unwrap().anon();
+                ev(format!(r#"{{"e":"owndrop","oid":{},"aid":{}}}"#, h.oid, h.aid));
+                drop(anon);
+            }
+        }
+        "refstorm" => {
+            // Create and drop n plain Actor/Fwd/Ret references (non-owning)
+            let aid = get_i(op, "aid");
+            let n = get_i(op, "n");
+            if let Some(a) = get_actor(aid) {
+                let mut v = Vec::new();
+                let mut f = Vec::new();
+                for i in 0..n {
+                    v.push(a.clone());
+                    let fw = fwd_to!([a], fwdm(-1) as (i64));
+                    f.push(fw.clone());
+                    f.push(fw);
+                    if i % 2 == 0 {
+                        v.pop();
+                    }
+                }
+                drop(f);
+                drop(v);
+                ev(format!(r#"{{"e":"refstorm","aid":{},"n":{}}}"#, aid, n));
+            }
+        }
+        "keepown" => {
+            // Move an owner from the registry into the running actor's state
+            let oid = get_i(op, "oid");
+            if let Ctx::M(n, _) = ctx {
+                if let Some(h) = w(|w| w.owns.remove(&oid)) {
+                    ev(format!(r#"{{"e":"keepown","oid":{},"aid":{},"by":{}}}"#, oid, h.aid, n.aid));
+                    n.kept_owns.push(h);
+                } else {
+                    ev(format!(r#"{{"e":"nop","why":"no owner {}"}}"#, oid));
+                }
+            } else {
+                panic!("harness: keepown outside method");
+            }
+        }
+        "unkeepown" => {
+            // Drop an owner kept in the running actor's state
+            let oid = get_i(op, "oid");
+            if let Ctx::M(n, _) = ctx {
+                if let Some(p) = n.kept_owns.iter().position(|h| h.oid == oid) {
+                    let h = n.kept_owns.remove(p);
+                    drop(h);
+                } else {
+                    ev(format!(r#"{{"e":"nop","why":"not kept {}"}}"#, oid));
+                }
+            } else {
+                panic!("harness: unkeepown outside method");
+            }
+        }
+        "zombie" => {
+            let aid = get_i(op, "aid");
+            if let Some(a) = get_actor(aid) {
+                ev(format!(r#"{{"e":"zombie","aid":{},"res":{}}}"#, aid, a.is_zombie()));
+            }
+        }
+        "slablen" => {
+            let aid = get_i(op, "aid");
+            if let (Ctx::S(s), Some(a)) = (&mut *ctx, get_actor(aid)) {
+                let r = a.query(s, |n, _| n.slab.len());
+                ev(format!(
+                    r#"{{"e":"slablen","aid":{},"ready":{},"len":{}}}"#,
+                    aid,
+                    r.is_some(),
+                    r.unwrap_or(0)
+                ));
+            }
+        }
+        // ------------------------------------------------ Ret / Fwd
+        "mkret" => {
+            // {"op":"mkret","rid":R,"kind":"plain"|"to"|"someto","aid":A}
+            let rid = get_i(op, "rid");
+            let kind = op["kind"].as_str().unwrap();
+            let aid = op.get("aid").and_then(|v| v.as_i64()).unwrap_or(0);
+            let ret: Ret<i64> = match kind {
+                "plain" => Ret::new(move |m: Option<i64>| {
+                    ev(format!(
+                        r#"{{"e":"retcb","rid":{},"has":{},"val":{}}}"#,
+                        rid,
+                        m.is_some(),
+                        m.unwrap_or(0)
+                    ));
+                }),
+                "to" => {
+                    let a = get_actor(aid).expect("unknown actor");
+                    ret_to!([a], retm(rid) as (i64))
+                }
+                _ => {
+                    let a = get_actor(aid).expect("unknown actor");
+                    ret_some_to!([a], retsome(rid) as (i64))
+                }
+            };
+            ev(format!(r#"{{"e":"mkret","rid":{},"kind":"{}","aid":{}}}"#, rid, kind, aid));
+            w(|w| w.rets.insert(rid, RetH { rid, ret: Some(ret) }));
+        }
+        "ret" => {
+            let rid = get_i(op, "rid");
+            let val = get_i(op, "val");
+            let h = w(|w| w.rets.remove(&rid));
+            if let Some(mut h) = h {
+                ev(format!(r#"{{"e":"ret","rid":{},"val":{}}}"#, rid, val));
+                let r = h.ret.take().unwrap();
+                ret!([r], val);
+            } else {
+                ev(format!(r#"{{"e":"nop","why":"no ret {}"}}"#, rid));
+            }
+        }
+        "retdrop" => {
+            let rid = get_i(op, "rid");
+            let h = w(|w| w.rets.remove(&rid));
+            if h.is_none() {
+                ev(format!(r#"{{"e":"nop","why":"no ret {}"}}"#, rid));
+            }
+            drop(h);
+        }
+        "keepret" => {
+            let rid = get_i(op, "rid");
+            if let Ctx::M(n, _) = ctx {
+                if let Some(h) = w(|w| w.rets.remove(&rid)) {
+                    ev(format!(r#"{{"e":"keepret","rid":{},"by":{}}}"#, rid, n.aid));
+                    n.kept_rets.push(h);
+                }
+            } else {
+                panic!("harness: keepret outside method");
+            }
+        }
+        "mkfwd" => {
+            let fid = get_i(op, "fid");
+            let aid = get_i(op, "aid");
+            let a = get_actor(aid).expect("unknown actor");
+            let f = fwd_to!([a], fwdm(fid) as (i64));
+            ev(format!(r#"{{"e":"mkfwd","fid":{},"aid":{}}}"#, fid, aid));
+            w(|w| w.fwds.insert(fid, f));
+        }
+        "fwd" => {
+            let fid = get_i(op, "fid");
+            let val = get_i(op, "val");
+            let f = w(|w| w.fwds.get(&fid).cloned());
+            if let Some(f) = f {
+                ev(format!(r#"{{"e":"fwd","fid":{},"val":{}}}"#, fid, val));
+                fwd!([f], val);
+            }
+        }
+        "fwddrop" => {
+            let fid = get_i(op, "fid");
+            let f = w(|w| w.fwds.remove(&fid));
+            drop(f);
+        }
+        // ------------------------------------------------ logging
+        "logfilter" => {
+            // {"op":"logfilter","levels":[names...]}
+            #[cfg(feature = "logger")]
+            if let Ctx::S(s) = ctx {
+                let f = mk_filter(&op["levels"]);
+                ev(format!(r#"{{"e":"logfilter","levels":{}}}"#, op["levels"]));
+                s.set_log_filter(f);
+            }
+        }
+        "logcheck" => {
+            let core = ctx.core().expect("needs core");
+            let mut parts = Vec::new();
+            for l in LogLevel::all_levels() {
+                if core.log_check(*l) {
+                    parts.push(format!("\"{}\"", l.name()));
+                }
+            }
+            ev(format!(r#"{{"e":"logcheck","allowed":[{}]}}"#, parts.join(",")));
+        }
+        "log" => {
+            // Emit one record at the given level from this context
+            let core = ctx.core().expect("needs core");
+            let lvl: LogLevel = op["level"].as_str().unwrap().parse().unwrap();
+            ev(format!(r#"{{"e":"logcall","level":"{}"}}"#, lvl.name()));
+            core.log(0, lvl, "verif", format_args!("probe"), |_| {});
+        }
+        other => panic!("harness: unknown op {}", other),
+    }
+    let _ = ctx.name();
+}
+
+#[cfg(feature = "logger")]
+fn mk_filter(levels: &Value) -> LogFilter {
+    let mut f = LogFilter::new();
+    for l in levels.as_array().unwrap() {
+        let lvl: LogLevel = l.as_str().unwrap().parse().unwrap();
+        f |= LogFilter::from(lvl);
+    }
+    f
+}
+
+// ---------------------------------------------------------------- top level
+
+fn top_op(op: &Value, stk: &mut Option<Stakker>) {
+    let name = op["op"].as_str().unwrap();
+    w(|w| w.during = name.to_string());
+    match name {
+        "run" => {
+            let s = stk.as_mut().expect("no stakker");
+            let t = inst(&op["t"]);
+            let idle = op["idle"].as_bool().unwrap_or(false);
+            ev(format!(r#"{{"e":"run","t":{},"idle":{}}}"#, tj(t), idle));
+            let r = s.run(t, idle);
+            ev(format!(r#"{{"e":"runend","ret":{},"now":{}}}"#, r, tj(s.now())));
+        }
+        "drain_nexp" => {
+            // Event loop that always sleeps until next_expiry()
+            let s = stk.as_mut().expect("no stakker");
+            let maxit = get_i(op, "max");
+            let mut n = 0;
+            ev(r#"{"e":"drain"}"#.to_string());
+            while n < maxit {
+                let x = s.next_expiry();
+                ev(format!(
+                    r#"{{"e":"nexp","has":{},"x":{}}}"#,
+                    x.is_some(),
+                    x.map(tj).unwrap_or("[0,0]".into())
+                ));
+                let t = match x {
+                    Some(t) => t,
+                    None => break,
+                };
+                ev(format!(r#"{{"e":"run","t":{},"idle":false}}"#, tj(t)));
+                let r = s.run(t, false);
+                ev(format!(r#"{{"e":"runend","ret":{},"now":{}}}"#, r, tj(s.now())));
+                n += 1;
+            }
+            ev(format!(r#"{{"e":"drainend","iters":{},"max":{}}}"#, n, maxit));
+        }
+        "drop_stakker" => {
+            ev(r#"{"e":"dropstakker"}"#.to_string());
+            let s = stk.take();
+            drop(s);
+            ev(r#"{"e":"droppedstakker"}"#.to_string());
+        }
+        "setlogger" => {
+            #[cfg(feature = "logger")]
+            {
+                let s = stk.as_mut().expect("no stakker");
+                let f = mk_filter(&op["levels"]);
+                ev(format!(r#"{{"e":"setlogger","levels":{}}}"#, op["levels"]));
+                s.set_logger(f, |_core, r| {
+                    struct V(Vec<String>);
+                    impl LogVisitor for V {
+                        fn kv_u64(&mut self, key: Option<&str>, val: u64) {
+                            self.0.push(format!("{}={}", key.unwrap_or(""), val));
+                        }
+                        fn kv_i64(&mut self, key: Option<&str>, val: i64) {
+                            self.0.push(format!("{}={}", key.unwrap_or(""), val));
+                        }
+                        fn kv_f64(&mut self, key: Option<&str>, _val: f64) {
+                            self.0.push(key.unwrap_or("").to_string());
+                        }
+                        fn kv_bool(&mut self, key: Option<&str>, val: bool) {
+                            self.0.push(format!("{}={}", key.unwrap_or(""), val));
+                        }
+                        fn kv_null(&mut self, key: Option<&str>) {
+                            self.0.push(key.unwrap_or("").to_string());
+                        }
+                        fn kv_str(&mut self, key: Option<&str>, _val: &str) {
+                            self.0.push(key.unwrap_or("").to_string());
+                        }
+                        fn kv_fmt(&mut self, key: Option<&str>, _val: &std::fmt::Arguments<'_>) {
+                            self.0.push(key.unwrap_or("").to_string());
+                        }
+                        fn kv_map(&mut self, key: Option<&str>) {
+                            self.0.push(key.unwrap_or("").to_string());
+                        }
+                        fn kv_mapend(&mut self, _key: Option<&str>) {}
+                        fn kv_arr(&mut self, key: Option<&str>) {
+                            self.0.push(key.unwrap_or("").to_string());
+                        }
+                        fn kv_arrend(&mut self, _key: Option<&str>) {}
+                    }
+                    let mut v = V(Vec::new());
+                    (r.kvscan)(&mut v);
+                    let mut parent = 0u64;
+                    let mut marker = "";
+                    for k in &v.0 {
+                        if let Some(p) = k.strip_prefix("parent=") {
+                            parent = p.parse().unwrap_or(0);
+                        }
+                        for m in ["failed", "killed", "dropped", "lost"] {
+                            if k == m {
+                                marker = m;
+                            }
+                        }
+                    }
+                    ev(format!(
+                        r#"{{"e":"logrec","id":{},"level":"{}","parent":{},"marker":"{}"}}"#,
+                        r.id,
+                        r.level.name(),
+                        parent,
+                        marker
+                    ));
+                });
+            }
+        }
+        _ => {
+            if let Some(s) = stk.as_mut() {
+                exec_op(op, &mut Ctx::S(s));
+            } else {
+                // After the Stakker is gone only handle drops make sense
+                exec_op(op, &mut Ctx::D);
+            }
+        }
+    }
+}
+
+fn flush() {
+    let lines = w(|w| std::mem::take(&mut w.out));
+    let stdout = std::io::stdout();
+    let mut lock = stdout.lock();
+    for l in lines {
+        let _ = writeln!(lock, "{}", l);
+    }
+    let _ = lock.flush();
+}
+
+fn clear_world() {
+    // Drop everything outside of any World borrow (drops log events)
+    let owns = w(|w| std::mem::take(&mut w.owns));
+    drop(owns);
+    let rets = w(|w| std::mem::take(&mut w.rets));
+    drop(rets);
+    let fwds = w(|w| std::mem::take(&mut w.fwds));
+    drop(fwds);
+    let refs = w(|w| std::mem::take(&mut w.refs));
+    drop(refs);
+    w(|w| {
+        w.timers.clear();
+        w.deferrer = None;
+    });
+}
+
+fn main() {
+    let args: Vec<String> = std::env::args().collect();
+    let path = &args[1];
+    let mut from = 0usize;
+    if args.len() >= 4 && args[2] == "--from" {
+        from = args[3].parse().unwrap();
+    }
+    let text = std::fs::read_to_string(path).expect("cannot read cases");
+    std::panic::set_hook(Box::new(|info| {
+        let msg = if let Some(s) = info.payload().downcast_ref::<&str>() {
+            s.to_string()
+        } else if let Some(s) = info.payload().downcast_ref::<String>() {
+            s.clone()
+        } else {
+            "unknown".to_string()
+        };
+        let loc = info
+            .location()
+            .map(|l| format!("{}:{}", l.file(), l.line()))
+            .unwrap_or_default();
+        let _ = W.try_with(|w| {
+            if let Ok(mut w) = w.try_borrow_mut() {
+                w.panic_msg = Some(format!("{} @ {}", msg, loc));
+            }
+        });
+    }));
+
+    // Far enough from the platform's zero that instants before the
+    // start of a case can be represented
+    let process_base = Instant::now() + Duration::from_secs(1_000_000);
+
+    for (idx, line) in text.lines().enumerate() {
+        if idx < from || line.trim().is_empty() {
+            continue;
+        }
+        let case: Value = serde_json::from_str(line).expect("bad case json");
+        w(|w| w.base = Some(process_base));
+        ev(format!(
+            r#"{{"e":"case","name":{},"idx":{},"props":{}}}"#,
+            case["case"],
+            idx,
+            case.get("props").cloned().unwrap_or(serde_json::json!([]))
+        ));
+        let mut stk = Some(Stakker::new(process_base));
+        let d = stk.as_ref().unwrap().deferrer();
+        w(|w| w.deferrer = Some(d));
+        ev(r#"{"e":"new","t":[0,0]}"#.to_string());
+        let ops = case["ops"].as_array().unwrap().clone();
+        let res = catch_unwind(AssertUnwindSafe(|| {
+            for op in &ops {
+                top_op(op, &mut stk);
+            }
+            // End of case: release everything
+            ev(r#"{"e":"endcase"}"#.to_string());
+            clear_world();
+            if stk.is_some() {
+                ev(r#"{"e":"dropstakker"}"#.to_string());
+                drop(stk.take());
+                ev(r#"{"e":"droppedstakker"}"#.to_string());
+            }
+            clear_world();
+            ev(r#"{"e":"end"}"#.to_string());
+        }));
+        if res.is_err() {
+            let (msg, during) = w(|w| (w.panic_msg.take().unwrap_or_default(), w.during.clone()));
+            let msg = msg.replace('\\', "/").replace('"', "'");
+            ev(format!(
+                r#"{{"e":"panic","during":"{}","msg":"{}","harness":{}}}"#,
+                during,
+                msg,
+                msg.starts_with("harness:")
+            ));
+            ev(r#"{"e":"end"}"#.to_string());
+            flush();
+            // State of the runtime (and of its process-wide singletons)
+            // is unknown after a panic: restart from the next case
+            println!("{{\"e\":\"restart\",\"next\":{}}}", idx + 1);
+            std::process::exit(3);
+        }
+        flush();
+    }
+}
